@@ -37,6 +37,33 @@ except Exception as e:  # pragma: no cover
 
 from hypothesis import given, settings, seed as hseed, strategies as st, HealthCheck, Phase
 
+# The public Python API (src/sas_lexer/lexer.py: lex_program_from_str) decodes the payload with msgspec, which cannot
+# be installed offline. py/shim/msgspec is a minimal stand-in (array-like Structs, typed msgpack Decoder); with it the
+# package's own hand-written files are imported unchanged from the working tree and run end to end.
+API = None
+API_NOTE = None
+try:
+    import shutil
+    site = os.path.join(HERE, "build", "site")
+    shutil.rmtree(site, ignore_errors=True)
+    os.makedirs(os.path.join(site, "sas_lexer"))
+    for fn in os.listdir(os.path.join(REPO, "src", "sas_lexer")):
+        if fn.endswith((".py", ".pyi", ".typed")):
+            shutil.copy(os.path.join(REPO, "src", "sas_lexer", fn), os.path.join(site, "sas_lexer", fn))
+    shutil.copy(os.path.join(HERE, "build", "pkg", "_sas_lexer_rust.so"), os.path.join(site, "sas_lexer", "_sas_lexer_rust.so"))
+    sys.path.insert(0, os.path.join(HERE, "shim"))
+    sys.path.insert(0, site)
+    import sas_lexer as API  # noqa: E402
+    if not callable(getattr(API, "lex_program_from_str", None)):
+        API_NOTE = "import-error:the package does not export lex_program_from_str"
+        API = None
+except SyntaxError as e:
+    API_NOTE = f"import-error:SyntaxError in {os.path.basename(e.filename or '?')} line {e.lineno}"
+    API = None
+except Exception as e:  # the stand-in may lack something a new version of the package uses: skip this half, say so
+    API_NOTE = f"skipped:{type(e).__name__}: {e}"
+    API = None
+
 
 def load_module(path, name):
     spec = importlib.util.spec_from_file_location(name, path)
@@ -290,7 +317,65 @@ def check(src, must_return):
         labels.append("has-string-payload")
     if any(ord(ch) > 127 for ch in src):
         labels.append("non-ascii")
+    v.extend(api_half(src, toks, errs, lit, labels))
     return v, nontrivial, labels
+
+
+def api_half(src, toks, errs, lit, labels):
+    """the package's public function must hand Python code exactly the payload, as objects of its Token / Error classes"""
+    if API is None:
+        labels.append("api-half:" + (API_NOTE or "unavailable").split(":")[0])
+        if API_NOTE and API_NOTE.startswith("import-error"):
+            return [("api", "api:" + API_NOTE.split(" line")[0], f"the Python package cannot be used: {API_NOTE}")]
+        return []
+    try:
+        res = API.lex_program_from_str(src)
+    except MemoryError:
+        raise
+    except BaseException as e:
+        return [("api", f"api:raises:{type(e).__name__}", f"_lex_program_from_str returned a payload but lex_program_from_str raised {type(e).__name__}: {str(e)[:160]}")]
+    labels.append("api-half:compared")
+    if not (isinstance(res, (tuple, list)) and len(res) == 3):
+        return [("api", "api:result-shape", f"lex_program_from_str returned {type(res).__name__} of length {len(res) if hasattr(res, '__len__') else '?'}, not (tokens, errors, buffer)")]
+    at, ae, ab = res
+    out = []
+    if not isinstance(ab, (bytes, bytearray)) or bytes(ab) != bytes(lit):
+        out.append(("api", "api:buffer", f"third element is {type(ab).__name__} and differs from the payload's literal buffer"))
+
+    def same(a, r):
+        if isinstance(r, list):
+            return isinstance(a, (tuple, list)) and len(a) == len(r) and all(same(x, y) for x, y in zip(a, r))
+        if isinstance(r, float):
+            return isinstance(a, float) and (a == r or (a != a and r != r))
+        if r is None:
+            return a is None
+        return a == r and not isinstance(a, bool)
+
+    for what, objs, raws, fields, enums in (("token", at, toks, TF, {"channel": "TokenChannel", "token_type": "TokenType"}), ("error", ae, errs, EF, {"error_kind": "ErrorKind"})):
+        try:
+            n_obj = len(objs)
+        except Exception:
+            out.append(("api", f"api:{what}s-not-a-sequence", f"{what}s: {type(objs).__name__}")); continue
+        if n_obj != len(raws):
+            out.append(("api", f"api:{what}-count", f"{n_obj} {what} objects for {len(raws)} payload entries")); continue
+        for i, (o, r) in enumerate(zip(objs, raws)):
+            if type(o).__name__ != what.capitalize():
+                out.append(("api", f"api:{what}-class", f"{what} {i} is a {type(o).__name__}")); break
+            bad = None
+            for k, name in enumerate(fields):
+                if k >= len(r):
+                    break
+                try:
+                    a = getattr(o, name)
+                except Exception:
+                    bad = f"{what} {i} has no attribute {name}"; break
+                if name in enums and type(a).__name__ != enums[name]:
+                    bad = f"{what} {i}.{name} is {type(a).__name__} {a!r}, not a {enums[name]} member"; break
+                if not same(a, r[k]):
+                    bad = f"{what} {i}.{name} = {a!r} but the payload has {r[k]!r} at position {k}"; break
+            if bad:
+                out.append(("api", f"api:{what}-field", bad)); break
+    return out
 
 
 # ---------------------------------------------------------------------------------- enum half
